@@ -16,8 +16,9 @@ keyword arguments of a frame config) following
 
 statement by statement (same order of checks, hence the same first error).  The supported-task lists
 and the parameter names of the metric configs come from `PEval.Gen.Config`, the sizes of the label
-enums from `PEval.Gen.Labels` (both regenerated from /repo on every run).  Values outside `PyVal`
-(dicts, tuples, objects) are outside the model.
+enums from `PEval.Gen.Labels` (both regenerated from /repo on every run).  Objects other than
+numbers, `bool`, `str`, `None` and lists are `PyVal.other`; they are meaningful as ENTRIES of a threshold
+list (where only `isinstance(., Real)` is asked of them); as the value of a key they are outside the model.
 -/
 namespace PEval.Config
 open PEval PEval.Threshold
